@@ -585,4 +585,213 @@ theorem recvPosted_native (W : World (Posted α)) (me : Int) (ty : RefType) (hty
         simp only [Int.lt_irrefl, if_false, Int.mul_zero, Int.add_zero, List.flatten_cons, List.nil_append]
         exact ih hszs blks hl2 (part0 + 1) off pre rest hoff (by omega) htag.tail hf
 
+theorem displsFrom_getD (acc : Int) (xs : List Int) (r : Nat) (hr : r < xs.length) :
+    (displsFrom acc xs).getD r 0 = acc + (xs.take r).sum := by
+  induction xs generalizing acc r with
+  | nil => simp at hr
+  | cons x xs ih =>
+    cases r with
+    | zero => simp [displsFrom]
+    | succ r =>
+      simp only [displsFrom, List.getD_cons_succ, List.take_succ_cons, List.sum_cons]
+      rw [ih (acc + x) r (by simpa using hr)]
+      omega
+
+theorem countsI_getD {γ : Type} (b : List (List γ)) (r : Nat) :
+    (countsI b).getD r 0 = ((b.getD r []).length : Int) :=
+  getD_map_len b r (fun blk => (blk.length : Int)) (by simp)
+
+theorem column_getD {γ : Type} (blocks : List (List (List γ))) (r s : Nat) (hs : s < blocks.length) :
+    (column r blocks).getD s [] = blocks[s].getD r [] := by
+  simp [column, List.getD_eq_getElem?_getD, hs]
+
+theorem lensI_flatten_items (n : Nat) (b : List (List (List α))) (hitem : ∀ blk ∈ b, ∀ it ∈ blk, it.length = n) :
+    lensI (b.map List.flatten) = (countsI b).map ((n : Int) * ·) := by
+  simp only [countsI, lensI, List.map_map]
+  apply List.map_congr_left
+  intro blk hblk
+  simp only [Function.comp, length_flatten_uniform n blk (hitem blk hblk)]
+  push_cast; rfl
+
+theorem column_items (n : Nat) (blocks : List (List (List (List α)))) (r : Nat)
+    (hitem : ∀ b ∈ blocks, ∀ blk ∈ b, ∀ it ∈ blk, it.length = n) :
+    ∀ blk ∈ column r blocks, ∀ it ∈ blk, it.length = n := by
+  intro blk hblk it hit
+  simp only [column, List.mem_map] at hblk
+  obtain ⟨b, hb, rfl⟩ := hblk
+  rw [List.getD_eq_getElem?_getD] at hit
+  cases hbr : b[r]? with
+  | none => simp [hbr] at hit
+  | some blk =>
+    simp only [hbr, Option.getD_some] at hit
+    exact hitem b hb blk (List.mem_of_getElem? hbr) it hit
+
+/-- the slice the native variant sends for part `r` is the flattened block -/
+theorem native_slice (n : Nat) (b : List (List (List α))) (hitem : ∀ blk ∈ b, ∀ it ∈ blk, it.length = n)
+    (r : Nat) (hr : r < b.length) :
+    slice (b.map List.flatten).flatten ((0 : Int) + (n : Int) * ((countsI b).take r).sum).toNat
+        ((n : Int) * (countsI b).getD r 0).toNat
+      = (b.getD r []).flatten := by
+  have hl := lensI_flatten_items n b hitem
+  have h1 : (displs (lensI (b.map List.flatten))).getD r 0 = (0 : Int) + (n : Int) * ((countsI b).take r).sum := by
+    unfold displs
+    rw [displsFrom_getD 0 _ r (by simp [lensI]; exact hr), hl, ← List.map_take, sum_map_mul]
+  have h2 : (lensI (b.map List.flatten)).getD r 0 = (n : Int) * (countsI b).getD r 0 := by
+    rw [hl]
+    simp only [countsI, List.map_map, Function.comp_def]
+    rw [getD_map_len b r (fun blk => (n : Int) * (blk.length : Int)) (by simp),
+      getD_map_len b r (fun blk => (blk.length : Int)) (by simp)]
+  rw [← h1, ← h2, slice_flatten, getD_map_flatten]
+
+theorem tag_bounds (N a b maxTag : Int) (ha : 0 ≤ a) (ha' : a < N) (hb : 0 ≤ b) (hb' : b < N)
+    (hmax : N * N ≤ maxTag) : 0 ≤ N * a + b ∧ N * a + b ≤ maxTag := by
+  have h1 : N * a ≤ N * (N - 1) := Int.mul_le_mul_of_nonneg_left (by omega) (by omega)
+  have h2 : N * (N - 1) = N * N - N := by rw [Int.mul_sub, Int.mul_one]
+  have h3 : 0 ≤ N * a := Int.mul_nonneg (by omega) ha
+  omega
+
+/-! ### `ref_mpi_alltoallv_native`, world level -/
+
+theorem mpiOk_of_nativeOk {ty : RefType} (h : ty.nativeOk = true) : ty.mpiOk = true := by
+  cases ty <;> simp_all [RefType.nativeOk, RefType.ild, RefType.mpiOk]
+
+/-- what rank `r` posts in the native variant (world of `a2aWorld`) -/
+def nativePosted (ty : RefType) (maxTag : Int) (n : Nat) (blocks : List (List (List (List α))))
+    (recv0 : Nat → List α) (r : Nat) (b : List (List (List α))) : Posted α :=
+  ⟨Status.ok,
+   (nativeRecvs ty (blocks.length : Int) maxTag (r : Int) (n : Int) 0 0 (countsI (column r blocks))).2,
+   (nativeSends ty (blocks.length : Int) maxTag (r : Int) (n : Int) (b.map List.flatten).flatten 0 0 (countsI b)).2,
+   recv0 r⟩
+
+theorem tagsOk_recv (np : Nat) (maxTag : Int) (r : Nat) (hr : r < np) (hmax : (np : Int) * np ≤ maxTag) :
+    TagsOk maxTag (fun p => (np : Int) * (r : Int) + p) 0 np := by
+  intro j hj
+  simp only [Int.zero_add]
+  exact tag_bounds np r j maxTag (by omega) (by omega) (by omega) (by omega) hmax
+
+theorem tagsOk_send (np : Nat) (maxTag : Int) (r : Nat) (hr : r < np) (hmax : (np : Int) * np ≤ maxTag) :
+    TagsOk maxTag (fun p => (np : Int) * p + (r : Int)) 0 np := by
+  intro j hj
+  simp only [Int.zero_add]
+  exact tag_bounds np j r maxTag (by omega) (by omega) (by omega) (by omega) hmax
+
+theorem nativePost_world (ty : RefType) (hty : ty.nativeOk = true) (maxTag : Int) (n : Nat)
+    (blocks : List (List (List (List α)))) (recv0 : Nat → List α)
+    (hmax : (blocks.length : Int) * blocks.length ≤ maxTag)
+    (hsq : ∀ b ∈ blocks, b.length = blocks.length) :
+    (a2aWorld blocks recv0).mapIdx
+        (fun r a => nativePost ty ((a2aWorld blocks recv0).length : Int) maxTag (r : Int) (n : Int) a)
+      = blocks.mapIdx (nativePosted ty maxTag n blocks recv0) := by
+  have hlenw : (a2aWorld blocks recv0).length = blocks.length := by simp [a2aWorld]
+  apply List.ext_getElem
+  · simp [a2aWorld]
+  · intro r h1 h2
+    have hr : r < blocks.length := by simpa [a2aWorld] using h1
+    have hb : blocks[r] ∈ blocks := List.getElem_mem hr
+    simp only [List.getElem_mapIdx, hlenw]
+    unfold nativePost nativePosted
+    have hnot : ¬ ((blocks.length : Int) * blocks.length > maxTag) := by omega
+    simp only [mpiOk_of_nativeOk hty, Bool.not_true, Bool.false_eq_true, if_false, hnot]
+    have hrs := nativeRecvs_status ty hty (blocks.length : Int) maxTag (r : Int) (n : Int)
+      (countsI (column r blocks)) 0 0
+      (by simpa [countsI, column] using tagsOk_recv blocks.length maxTag r hr hmax)
+    have hss := nativeSends_status ty hty (blocks.length : Int) maxTag (r : Int) (n : Int)
+      ((blocks[r].map List.flatten).flatten) (countsI blocks[r]) 0 0
+      (by simpa [countsI, hsq _ hb] using tagsOk_send blocks.length maxTag r hr hmax)
+    simp only [a2aWorld, List.getElem_mapIdx, hrs, ne_eq, not_true_eq_false, if_false, hss]
+
+theorem alltoallvNative_spec (ty : RefType) (hty : ty.nativeOk = true) (maxTag : Int) (n : Nat)
+    (blocks : List (List (List (List α)))) (recv0 : Nat → List α)
+    (hmax : (blocks.length : Int) * blocks.length ≤ maxTag)
+    (hsq : ∀ b ∈ blocks, b.length = blocks.length)
+    (hitem : ∀ b ∈ blocks, ∀ blk ∈ b, ∀ it ∈ blk, it.length = n)
+    (hrecv : ∀ r, r < blocks.length → ((recv0 r).length : Int) = (n : Int) * (countsI (column r blocks)).sum) :
+    alltoallvNative ty maxTag (n : Int) (a2aWorld blocks recv0)
+      = some ((List.range blocks.length).map fun r => (Status.ok, ((column r blocks).flatten).flatten)) := by
+  unfold alltoallvNative
+  rw [nativePost_world ty hty maxTag n blocks recv0 hmax hsq]
+  -- abbreviations
+  have hW : ∀ s, (hs : s < blocks.length) →
+      (blocks.mapIdx (nativePosted ty maxTag n blocks recv0))[s]? = some (nativePosted ty maxTag n blocks recv0 s blocks[s]) := by
+    intro s hs
+    simp [hs]
+  have hcnt : ∀ r s, r < blocks.length → (hs : s < blocks.length) →
+      (countsI (column r blocks)).getD s 0 = (countsI blocks[s]).getD r 0 := by
+    intro r s hr hs
+    rw [countsI_getD, countsI_getD, column_getD blocks r s hs]
+  unfold p2pExchange
+  have hloop : (blocks.mapIdx (nativePosted ty maxTag n blocks recv0)).mapIdx
+      (fun r p =>
+        if p.status ≠ Status.ok then
+          (if p.rcvs.isEmpty && p.msgs.isEmpty then some (p.status, p.buf) else none)
+        else if p.msgs.all (sendMatched (blocks.mapIdx (nativePosted ty maxTag n blocks recv0)) (r : Int)) then
+          (recvPosted (blocks.mapIdx (nativePosted ty maxTag n blocks recv0)) (r : Int) p.rcvs p.buf).map
+            fun b => (Status.ok, b)
+        else none)
+      = ((List.range blocks.length).map fun r => (Status.ok, ((column r blocks).flatten).flatten)).map some := by
+    apply List.ext_getElem
+    · simp
+    · intro r h1 h2
+      have hr : r < blocks.length := by simpa using h1
+      have hb : blocks[r] ∈ blocks := List.getElem_mem hr
+      simp only [List.getElem_mapIdx, List.getElem_map, List.getElem_range]
+      -- status ok
+      have hst : (nativePosted ty maxTag n blocks recv0 r blocks[r]).status = Status.ok := rfl
+      simp only [hst, ne_eq, not_true_eq_false, if_false]
+      -- every send is matched
+      have hsend : (nativePosted ty maxTag n blocks recv0 r blocks[r]).msgs.all
+          (sendMatched (blocks.mapIdx (nativePosted ty maxTag n blocks recv0)) (r : Int)) = true := by
+        have hm : (nativePosted ty maxTag n blocks recv0 r blocks[r]).msgs
+            = (nativeSends ty (blocks.length : Int) maxTag (r : Int) (n : Int)
+                (blocks[r].map List.flatten).flatten 0 0 (countsI blocks[r])).2 := rfl
+        rw [hm]
+        apply nativeSends_all
+        intro k hk hpos d
+        have hk' : k < blocks.length := by simpa [countsI, hsq _ hb] using hk
+        unfold sendMatched
+        have hneg : ¬ ((k : Int) < 0) := by omega
+        simp only [Int.zero_add, hneg, if_false, Int.toNat_natCast, hW k hk']
+        have := nativeRecvs_any ty hty (blocks.length : Int) maxTag (k : Int) (n : Int)
+          (countsI (column k blocks)) 0 0 r (by simpa [countsI, column] using hr)
+          (by rw [hcnt k r hk' hr]; exact hpos)
+          (by simpa [countsI, column] using tagsOk_recv blocks.length maxTag k hk' hmax)
+        simpa [nativePosted] using this
+      simp only [hsend, if_true]
+      -- the receives
+      have hitemc := column_items n blocks r hitem
+      have hrp := recvPosted_native (blocks.mapIdx (nativePosted ty maxTag n blocks recv0)) (r : Int) ty hty
+        (blocks.length : Int) maxTag (n : Int) (by omega) (countsI (column r blocks)) (countsI_nonneg _)
+        ((column r blocks).map List.flatten) (lensI_flatten_items n _ hitemc) 0 0 [] (recv0 r) (by simp)
+        (by rw [sum_map_mul]; exact hrecv r hr)
+        (by simpa [countsI, column] using tagsOk_recv blocks.length maxTag r hr hmax)
+        (by
+          intro k hk hpos o c
+          have hk' : k < blocks.length := by simpa [countsI, column] using hk
+          have hbk : blocks[k] ∈ blocks := List.getElem_mem hk'
+          unfold findMsg
+          have hneg : ¬ ((k : Int) < 0) := by omega
+          simp only [Int.zero_add, hneg, if_false, Int.toNat_natCast, hW k hk']
+          have hf := nativeSends_find ty hty (blocks.length : Int) maxTag (k : Int) (n : Int)
+            ((blocks[k].map List.flatten).flatten) (countsI blocks[k]) 0 0 r
+            (by simpa [countsI, hsq _ hbk] using hr)
+            (by rw [← hcnt r k hr hk']; exact hpos)
+            (by simpa [countsI, hsq _ hbk] using tagsOk_send blocks.length maxTag k hk' hmax)
+          simp only [Int.zero_add] at hf
+          have hm : (nativePosted ty maxTag n blocks recv0 k blocks[k]).msgs
+              = (nativeSends ty (blocks.length : Int) maxTag (k : Int) (n : Int)
+                  (blocks[k].map List.flatten).flatten 0 0 (countsI blocks[k])).2 := rfl
+          rw [hm]
+          refine ⟨_, hf, ?_⟩
+          · simp only
+            have := native_slice n blocks[k] (hitem _ hbk) r (by rw [hsq _ hbk]; exact hr)
+            simp only [Int.zero_add] at this
+            rw [this, getD_map_flatten, column_getD blocks r k hk'])
+      simp only [List.nil_append] at hrp
+      have hbuf : (nativePosted ty maxTag n blocks recv0 r blocks[r]).buf = recv0 r := rfl
+      have hrc : (nativePosted ty maxTag n blocks recv0 r blocks[r]).rcvs
+          = (nativeRecvs ty (blocks.length : Int) maxTag (r : Int) (n : Int) 0 0 (countsI (column r blocks))).2 := rfl
+      rw [hbuf, hrc, hrp, List.flatten_flatten]
+      rfl
+  rw [hloop, allSome_map_some]
+
 end Refine.Lemmas.Comm
